@@ -447,10 +447,10 @@ func humanTime(seconds int) string {
 func (s *Scanner) Scan(foundCert func(*ct.LogEntry, string),
 	foundPrecert func(*ct.LogEntry, string), updater chan int64) (int64, error) {
 	s.logger.Info("Starting up...\n")
-	s.certsProcessed = 0
-	s.precertsSeen = 0
-	s.unparsableEntries = 0
-	s.entriesWithNonFatalErrors = 0
+	atomic.StoreInt64(&s.certsProcessed, 0)
+	atomic.StoreInt64(&s.precertsSeen, 0)
+	atomic.StoreInt64(&s.unparsableEntries, 0)
+	atomic.StoreInt64(&s.entriesWithNonFatalErrors, 0)
 
 	latestSth, err := s.logClient.GetSTH()
 	if err != nil {
